@@ -96,3 +96,70 @@ contract(f"{TP}::AbstractTAP._tap_outcome_handler", props=["C19"], types={"selec
          modifies=["self.current_kill_chain_stage", "self.next_kill_chain_stage", "self.actions_concluded", "self.chosen_action"], allocates=True)
 contract(f"{TP}::BaseKillChain.initial_stage", verify=False, note="abstract: the first stage of a kill chain (an enumeration member)",
          ensures=[], modifies=[])
+
+# ---- TAP001: the kill chain moves one stage at a time ----------------------------------------------------------------------------------------
+T1 = "src/primaite/game/agent/scripted_agents/TAP001.py"
+# AbstractTAP annotates the stage attributes with the base enumeration; TAP001 stores members of its own kill chain there (selected_kill_chain)
+attr_types({"TAP001.current_kill_chain_stage": "MobileMalwareKillChain", "TAP001.next_kill_chain_stage": "MobileMalwareKillChain"})
+# stages 1..6 in order, then SUCCEEDED; `next` is the successor of `current` (kept by _tap_start and _progress_kill_chain)
+spec("chain_linked(a)", "(1 <= a.current_kill_chain_stage and a.current_kill_chain_stage <= 5 and a.next_kill_chain_stage == a.current_kill_chain_stage + 1)"
+                        " or (a.current_kill_chain_stage == MobileMalwareKillChain.PAYLOAD and a.next_kill_chain_stage == MobileMalwareKillChain.SUCCEEDED)")
+spec("stage_successor(s)", "MobileMalwareKillChain.SUCCEEDED if s == MobileMalwareKillChain.PAYLOAD else s + 1")
+contract(f"{T1}::TAP001._progress_kill_chain", props=["C19"],
+         requires=["chain_linked(self)"],
+         ensures=[("advances_exactly_one_stage", "self.current_kill_chain_stage == stage_successor(old(self.current_kill_chain_stage))"),
+                  ("stays_linked", "self.current_kill_chain_stage == MobileMalwareKillChain.SUCCEEDED or chain_linked(self)"),
+                  ("new_stage_pending", "self.current_stage_progress == KillChainStageProgress.PENDING")],
+         modifies=["self.current_kill_chain_stage", "self.next_kill_chain_stage", "self.current_stage_progress"])
+STAGE_FRAME = ["self.current_kill_chain_stage", "self.next_kill_chain_stage", "self.current_stage_progress", "self.chosen_action", "self.current_host",
+               "self.chosen_application"]
+for _fn, _stage in (("_download", "DOWNLOAD"), ("_install", "INSTALL"), ("_activate", "ACTIVATE")):
+    contract(f"{T1}::TAP001.{_fn}", props=["C19"],
+             requires=[f"implies(self.current_kill_chain_stage == MobileMalwareKillChain.{_stage}, chain_linked(self))"],
+             ensures=[("acts_only_in_its_own_stage", f"implies(old(self.current_kill_chain_stage) != MobileMalwareKillChain.{_stage}, unchanged())"),
+                      ("at_most_one_stage_forward", "self.current_kill_chain_stage == old(self.current_kill_chain_stage)"
+                                                    " or self.current_kill_chain_stage == stage_successor(old(self.current_kill_chain_stage))"),
+                      ("stays_linked", f"implies(old(self.current_kill_chain_stage) == MobileMalwareKillChain.{_stage}, chain_linked(self))")],
+             modifies=STAGE_FRAME, allocates=True)
+# the three interactive stages call scan/C2/payload helpers that are not under contract: their bodies are abstracted (any effect), so only the
+# stage guard is proved for them
+# (the settings dictionaries are filled with these keys by TAP001.setup_agent, which __init__ runs)
+_SETUP_KEYS = {"_propagate": [], "_c2c": [], "_payload": []}
+for _fn, _stage in (("_propagate", "PROPAGATE"), ("_c2c", "COMMAND_AND_CONTROL"), ("_payload", "PAYLOAD")):
+    contract(f"{T1}::TAP001.{_fn}", props=["C19"], abstract_callees=True, requires=_SETUP_KEYS[_fn],
+             ensures=[("acts_only_in_its_own_stage", f"implies(old(self.current_kill_chain_stage) != MobileMalwareKillChain.{_stage}, unchanged())")],
+             modifies=["heap"], allocates=True)
+contract(f"{TP}::AbstractTAP.update_current_timestep", props=["C19"],
+         ensures=[("stored", "self.current_timestep == new_timestep")], modifies=["self.current_timestep"])
+# _tap_start as TAP001 runs it (selected_kill_chain and the argument are its MobileMalwareKillChain)
+contract(f"{TP}::AbstractTAP._tap_start#tap001", props=["C19"], self_class="TAP001", types={"tap_kill_chain": "Type[MobileMalwareKillChain]"},
+         ensures=[("starts_only_when_not_started", "implies(old(self.current_kill_chain_stage) != MobileMalwareKillChain.NOT_STARTED, unchanged())"),
+                  ("starts_at_the_first_stage", "implies(old(self.current_kill_chain_stage) == MobileMalwareKillChain.NOT_STARTED,"
+                                                " self.current_kill_chain_stage == MobileMalwareKillChain.DOWNLOAD and chain_linked(self))")],
+         modifies=["self.current_kill_chain_stage", "self.next_kill_chain_stage", "self.chosen_action"], allocates=True)
+spec("early_stage(s)", "1 <= s and s <= 3")
+contract(f"{T1}::TAP001.get_action", props=["C19"],
+         requires=["self.config.agent_settings.variance >= 0", "0 <= self.current_timestep and self.current_timestep < len(self.history)",
+                   "'continue_on_failed_exfil' in self.payload_settings", "'c2_server' in self.c2_settings",
+                   # this contract covers the calls made while the chain is outside the three interactive stages, whose handlers are only
+                   # abstracted views (their scan/C2/payload helpers are not under contract)
+                   "(chain_linked(self) and early_stage(self.current_kill_chain_stage)) or self.current_kill_chain_stage == MobileMalwareKillChain.NOT_STARTED"
+                   " or self.current_kill_chain_stage == MobileMalwareKillChain.SUCCEEDED or self.current_kill_chain_stage == MobileMalwareKillChain.FAILED"],
+         ensures=[
+             # "moves through its kill chain strictly in stage order without skipping a stage" (the stages whose handlers are fully under contract)
+             ("no_stage_skipped", "implies(early_stage(old(self.current_kill_chain_stage)),"
+                                  " self.current_kill_chain_stage == old(self.current_kill_chain_stage)"
+                                  " or self.current_kill_chain_stage == old(self.current_kill_chain_stage) + 1"
+                                  " or self.current_kill_chain_stage == MobileMalwareKillChain.FAILED"
+                                  " or self.current_kill_chain_stage == MobileMalwareKillChain.NOT_STARTED)"),
+             ("failed_action_never_advances", "implies(early_stage(old(self.current_kill_chain_stage)) and timestep >= old(self.next_execution_timestep)"
+                                              " and not old(self.actions_concluded)"
+                                              " and old(self.history[self.current_timestep].response.status) != 'success',"
+                                              " self.current_kill_chain_stage != old(self.current_kill_chain_stage) + 1)"),
+             ("start_enters_the_first_stage", "implies(old(self.current_kill_chain_stage) == MobileMalwareKillChain.NOT_STARTED,"
+                                              " self.current_kill_chain_stage == MobileMalwareKillChain.NOT_STARTED"
+                                              " or self.current_kill_chain_stage == MobileMalwareKillChain.DOWNLOAD"
+                                              " or self.current_kill_chain_stage == MobileMalwareKillChain.FAILED)"),
+             ("idle_before_its_time", "implies(timestep < old(self.next_execution_timestep) or old(self.actions_concluded),"
+                                      " result[0] == 'do-nothing' and unchanged())")],
+         modifies=["heap"], allocates=True)
